@@ -27,6 +27,29 @@ example : ({ id := "a b\t\n".toList, short := ['\x00', 'é', ';'], symbols := "1
              stack := [{ file := "d/../a.c".toList, origFile := "a.c".toList, line := -1, col := 7, info := "x\ty".toList },
                        { file := [], origFile := [], line := 2147483647, col := 4294967295 }] } : Msg).transportable = true := by decide
 
+/-- SUPPRESSION TRANSPORT ROUND TRIP: what `handleRead` makes of the line `toString();column;checked;matched;extraComment`
+    is the suppression with every field that is not written (type, lineBegin/lineEnd, macroName, hash, thisAndNextLine)
+    back at its default and the file name through `simplifyPath`. -/
+theorem suppr_transport (simp : Str → Str) (s : Suppr) (inl : Bool) (h : s.transportable = true) :
+    supprDecode simp inl (supprEncode s) = .ok { s.transportView simp with isInline := inl } :=
+  suppr_transport_aux simp s inl h
+
+example : ({ errorId := "nullPointer".toList, fileName := "C:/src/dir.d/a.c".toList, lineNumber := 12, symbolName := "f*".toList,
+             column := 3, checked := true, extraComment := "why; really # yes // ok".toList, isInline := true, type := 2,
+             lineBegin := 3, lineEnd := 9, hash := 77 } : Suppr).transportable = true := by decide
+
+/-- outside `Suppr.transportable` the line is really misread: a '#' in the file name starts a comment for `parseLine` -/
+theorem suppr_transport_hash_counterexample :
+    ¬ ∀ (s : Suppr), supprDecode id true (supprEncode s) = .ok { s.transportView id with isInline := true } := by
+  intro h
+  have e := h { errorId := ['x'], fileName := ['a', '#', 'b'] }
+  have c : (match supprDecode id true (supprEncode { errorId := ['x'], fileName := ['a', '#', 'b'] }) with
+      | .ok s' => decide (s'.fileName = ['a', '#', 'b'])
+      | .error _ => false) = false := by decide
+  rw [e] at c
+  revert c
+  decide
+
 /-- F11b: a TAB inside a call-stack file name is outside `transportable`, and the round trip is really lost there:
     the frame of `a<TAB>b.c` comes back with file `a` and original file `b.c`. -/
 theorem deserialize_serialize_tab_counterexample :
@@ -199,6 +222,11 @@ theorem process_never_dies (cfg : Cfg) (raws : F → List Raw) (sups : F → Lis
     simp only [Option.map_some, Option.some.injEq] at h1
     subst h1
     rfl
+
+/-- what `process_eq_single` asks of the suppression lines follows from `Suppr.transportable` -/
+theorem suppr_good_of_transportable (cfg : Cfg) (inl : Bool) (s : Suppr) (h : s.transportable = true)
+    (hl : (supprEncode s).length < two32) : (Ev.suppr inl s).good cfg = true := by
+  simp [Ev.good, hl, suppr_transport cfg.simp s inl h]
 
 /-- exit status (as far as the executors determine it) without --safety -/
 theorem thread_exit_eq_single (cfg : Cfg) (raws : F → List Raw) (files : List F) (jobs : Nat) (σ : List TLabel) (s' : TState F)
